@@ -51,8 +51,7 @@ def isLitExprX : XExpr → Bool
   | .bin op l r => op.isArith && isLitExprX l && isLitExprX r
   | _ => false
 
-/-- `const_eval.rs: eval_const_int_expr` on an index expression (literals, unary minus, checked
-`+ - * / MOD`); a typed literal contributes only its digits (the sign inside `K#-n` is dropped). -/
+/-- `constIdx` of `StCheck` on the extended syntax. -/
 def constIdx : XExpr → Option Int
   | .lit none v => some v
   | .lit (some _) v => some (Int.ofNat v.natAbs)
